@@ -170,12 +170,13 @@ func c06Direct(c *core.Ctx, al []rv.V, onlyA, onlyB int) {
 			c.EvalN(int64(len(c06Ops)+5), b2i(nt)*int64(len(c06Ops)+5))
 
 			// row values of arity 2 (only usable inside search conditions, so driven through value.CompareRowValues)
-			for _, shape := range [][4]rv.V{{a, b, b, a}, {a, a, a, b}, {a, b, a, a}, {b, a, a, a}} {
+			shapeNames := []string{"(a, b) %s (b, a)", "(a, a) %s (a, b)", "(a, b) %s (a, a)", "(b, a) %s (a, a)"}
+			for si, shape := range [][4]rv.V{{a, b, b, a}, {a, a, a, b}, {a, b, a, a}, {b, a, a, a}} {
 				for _, op := range []string{"=", "<>", "<", "<=", ">", ">="} {
 					t, err := value.CompareRowValues(value.RowValue{shape[0].Primary(), shape[1].Primary()}, value.RowValue{shape[2].Primary(), shape[3].Primary()}, op, nil, time.UTC)
 					want := rowCmp(shape[0], shape[1], shape[2], shape[3], op)
 					if err != nil || rv.FromTernary(t) != want {
-						violateC06(c, "direct", fmt.Sprintf("(%s, %s) %s (%s, %s)", shape[0].Key(), shape[1].Key(), op, shape[2].Key(), shape[3].Key()), al, idx,
+						violateC06(c, "direct", "row value "+fmt.Sprintf(shapeNames[si], op), al, idx,
 							fmt.Sprint(rv.TernName(rv.FromTernary(t)), " ", err), rv.TernName(want))
 					}
 				}
